@@ -841,6 +841,12 @@ func (n *RegexNode) eliminateEndingBacktracking() {
 func (n *RegexNode) FindLastExpressionInLoopForAutoAtomic() *RegexNode {
 	node := n
 
+	// The overlap test below compares against the start of the first child's text, which is
+	// where the next iteration begins only when matching left to right.
+	if n.Options&RightToLeft != 0 {
+		return nil
+	}
+
 	// Start by looking at the loop's sole child.
 	node = node.Children[0]
 
